@@ -55,7 +55,7 @@ Ment(c, src) == IF src = "fw" THEN c.fw
 
 Order == IF "EnvBeforeFile" \in Dev THEN <<"fw", "env", "file", "cli">> ELSE Srcs
 
-S0(c) == [case |-> c, k |-> 1, eff |-> "D", status |-> "run"]
+S0(c) == [case |-> c, k |-> 1, eff |-> "D", status |-> "run", gen |-> 0]
 
 Step(s) ==
   LET src == Order[s.k]
@@ -71,9 +71,18 @@ Step(s) ==
 
 VARIABLE s
 Init == \E c \in Cases : s = S0(c)
-Next == s.status = "run" /\ s' = Step(s)
+(* HUP: the operator has edited the chosen configuration file (it now mentions the setting with f, or not at  *)
+(* all) and the application reloads: load_default_config() + load_config() start again from the built-in     *)
+(* defaults (Application.reload -> do_load_config).  Deviation "ReloadKeepsValues": the old Config object,   *)
+(* with the values of the previous load, is kept as the starting point.                                     *)
+Reload ==
+  /\ s.status = "done" /\ s.gen = 0
+  /\ \E f \in {"no", "A", "B"} :
+       s' = [case |-> [s.case EXCEPT !.file = IF s.case.files = {} THEN "no" ELSE f], k |-> 1,
+             eff |-> IF "ReloadKeepsValues" \in Dev THEN s.eff ELSE "D", status |-> "run", gen |-> 1]
+Next == (s.status = "run" /\ s' = Step(s)) \/ Reload
 Spec == Init /\ [][Next]_s
-LevelBound == TLCGet("level") <= 8
+LevelBound == TLCGet("level") <= 12
 
 RECURSIVE RunFrom(_)
 RunFrom(x) == IF x.status # "run" THEN x ELSE RunFrom(Step(x))
